@@ -343,8 +343,8 @@ def run(ctx):
                      % ("v2/async_scope.hpp (v2 and v1 scopes)" if ver == 2 else "v0/async_scope.hpp"))
 
     fams = {2: scenarios_v2(ctx.tier), 1: scenarios_v1(ctx.tier), 0: scenarios_v0(ctx.tier)}
-    gcap = {2: 800 if q else 3000, 1: 500 if q else 2000, 0: 250 if q else 1000}
-    dcap = {2: 40 if q else 150, 1: 60 if q else 200, 0: 60 if q else 200}
+    gcap = {2: 600 if q else 3000, 1: 500 if q else 2000, 0: 250 if q else 1000}
+    dcap = {2: 30 if q else 150, 1: 60 if q else 200, 0: 60 if q else 200}
     for ver in (2, 1, 0):
         scns = fams[ver]
         sp = os.path.join(ctx.work, "scn_v%d.json" % ver)
@@ -354,7 +354,7 @@ def run(ctx):
         edges = os.path.join(ctx.work, "edges_v%d.ndjson" % ver)
         cfg = "ScopeV%dMC.cfg" % ver if fixed[ver] else "ScopeV%dMCOld.cfg" % ver
         vlib.model_check(ctx, "scope", mod, cfg=cfg, env={"SCENARIOS": sp, "EDGES": edges}, workers=1, timeout=3000)
-        if ver == 2 or not q:
+        if not q:   # quick tier: deadlock freedom + TerminalJoined of the (acyclic) MC run already give 'join does complete'
             vlib.model_check(ctx, "scope", "ScopeV2Live" if ver == 2 else mod, cfg="ScopeV%dLive.cfg" % ver, env={"SCENARIOS": sp}, timeout=3000)
         ro = vlib.model_check(ctx, "scope", mod, cfg="ScopeV%dOld.cfg" % ver, env={"SCENARIOS": sp}, must_hold=False, timeout=3000)
         if not (ro["kind"] == "invariant" and ro["violated"] == "NoTouchAfterDestruction"):
